@@ -21,12 +21,12 @@ PLAN = {
     "quick": {"configs": ["ext1", "ext0"], "nshards": 9, "nshards_ext0": 3, "timeout": 900},
     "thorough": {"configs": ["ext1", "ext0"], "nshards": 14, "timeout": 3400, "suite": ["ext1"]},
 }
-DECIDING = ["direction.marker", "humans.boundary", "format.phrase", "history", "in_words", "tokens", "humans.direction", "bound"]
-FLOORS = {"quick": {"format.phrase": 300000, "history": 50000, "in_words": 5000, "tokens": 10000, "humans.direction": 5000, "bound": 20000, "humans.boundary": 20000, "direction.marker": 50000},
-          "thorough": {"format.phrase": 1500000, "history": 200000, "in_words": 50000, "tokens": 10000, "humans.direction": 50000, "bound": 200000, "humans.boundary": 100000, "direction.marker": 200000}}
+DECIDING = ["direction.marker", "humans.boundary", "format.phrase", "history", "in_words", "tokens", "humans.direction", "bound", "argforms"]
+FLOORS = {"quick": {"format.phrase": 300000, "history": 50000, "in_words": 5000, "tokens": 10000, "humans.direction": 5000, "bound": 20000, "humans.boundary": 20000, "direction.marker": 50000, "argforms": 100},
+          "thorough": {"format.phrase": 1500000, "history": 200000, "in_words": 50000, "tokens": 10000, "humans.direction": 50000, "bound": 200000, "humans.boundary": 100000, "direction.marker": 200000, "argforms": 100}}
 REQUIRED_HOOKS = ["DifferenceFormatter.format"]
 EXHAUSTIVE = {"quick": False, "thorough": True}
-TECHNIQUE = "runtime contract on DifferenceFormatter.format with a reference phrase built from the locale's own data (direction templates, documented rounding), totality monitors, history-independence digests; direction-marker monitor (documented English markers, majority markers of each locale); boundary expectation for diff_for_humans under pinned clocks with mixed reference kinds"
+TECHNIQUE = "runtime contract on DifferenceFormatter.format with a reference phrase built from the locale's own data (direction templates, documented rounding), totality monitors, history-independence digests; direction-marker monitor (documented English markers, majority markers of each locale); boundary expectation for diff_for_humans under pinned clocks with mixed reference kinds; the locale argument in its legitimate spellings (str subclass, (str, Enum) member, case, dash), the first use in a process rotating between them"
 LEVEL_TEXT = ("every phrase produced by DifferenceFormatter.format during the workloads is checked for totality and compared with the "
               "phrase the locale's own templates give for the selected direction and the documented rounding; the thorough tier enumerates "
               "27 locales x 7 units x counts 0..1000 x now/other x past/future x absolute; phrases are re-produced after shuffled call "
@@ -299,7 +299,8 @@ def cases(M):
         locs = [l for i, l in enumerate(locs) if i % 3 == M.shard % 3][:6]
     else:
         locs = locs[M.shard::M.nshards]
-    for loc in locs:
+    for li, loc in enumerate(locs):
+        yield {"k": "argforms", "loc": loc, "first": li + M.shard + M.seed}       # the first use of this locale in this process
         yield {"k": "grid", "loc": loc}
         yield {"k": "tokens", "loc": loc}
         yield {"k": "humans", "loc": loc, "seed": r.randrange(1 << 30), "n": 6000 if thorough else 1500}
@@ -342,6 +343,43 @@ def run(M, c):
         return
     if k == "one":
         _phrase(M, c["loc"], c["unit"], c["count"], c["now"], c["future"], c["abs"])
+        return
+    if k == "argforms":
+        # the locale argument in its legitimate spellings - plain str, a str subclass, a member of a (str, Enum) class,
+        # upper case, '-' for '_' - and whichever of them comes FIRST in the process (this case is the first use of the
+        # locale in this shard; the form used first rotates): every entry point must render, and render what the plain
+        # name renders
+        import enum
+
+        loc = c["loc"]
+
+        class _S(str):
+            pass
+
+        Lang = enum.Enum("Lang", {"X": loc}, type=str)
+        forms = [("enum", Lang.X), ("strsub", _S(loc)), ("plain", loc), ("upper", loc.upper()), ("dash", loc.replace("_", "-"))]
+        forms = forms[c["first"] % 3:3] + forms[:c["first"] % 3] + forms[3:]
+        a, b = P.DateTime(2020, 1, 1, 10, tzinfo=P.UTC), P.DateTime(2020, 1, 3, 15, 30, tzinfo=P.UTC)
+        dur = P.duration(days=2, hours=5)
+
+        def render(arg):
+            return (a.diff_for_humans(b, locale=arg), b.diff_for_humans(a, locale=arg), a.diff_for_humans(b, True, arg), P.format_diff(dur, True, False, arg),
+                    dur.in_words(locale=arg), (b - a).in_words(arg), a.format("dddd D MMMM YYYY, Do MMM ddd dd A LT", locale=arg),
+                    P.Date(2020, 1, 1).diff_for_humans(P.Date(2020, 3, 1), locale=arg), P.Time(10, 0).diff_for_humans(P.Time(12, 30), locale=arg))
+
+        out = {}
+        for name, arg in forms:
+            try:
+                out[name] = render(arg)
+            except Exception as e:  # noqa: BLE001
+                out[name] = "<raised %s: %s>" % (type(e).__name__, str(e)[:80])
+        for pos_, (name, arg) in enumerate(forms):
+            M.current = {"k": "argforms", "loc": loc, "first": c["first"]}
+            ok = not isinstance(out[name], str) and out[name] == out["plain"] and all(isinstance(x_, str) and x_ for x_ in out[name])
+            M.check("argforms", ok, f"C18/locale-argument-form:{name}" + (":first-use" if pos_ == 0 else "") + (":raised" if isinstance(out[name], str) else ""),
+                    "a legitimate spelling of the locale argument does not render like the plain locale name", locale=loc, form=name, position=pos_,
+                    got=out[name], plain=out["plain"])
+        M.cls("argforms", loc, forms[0][0])
         return
     if k == "history":
         # the same phrase after different call histories (Locale._cache / _key_cache / set_locale) must not change
